@@ -441,10 +441,13 @@ class CatalogWriter(AbstractContextManager, HandlesDataChunk):
             )
 
         if self.cache_directory.exists():
-            if overwrite:
-                rmtree(self.cache_directory)
-            else:
+            if not overwrite:
                 raise FileExistsError(f"cache directory exists: {cache_directory}")
+            elif not (self.cache_directory / PATCH_INFO_FILE).exists():
+                raise FileExistsError(
+                    f"not overwriting, path is not a catalog cache: {cache_directory}"
+                )
+            rmtree(self.cache_directory)
 
         self.buffersize = buffersize
         self.cache_directory.mkdir()
